@@ -488,3 +488,109 @@ Example C03_checker_rejects_read_after_write_plan :
   run_impl None eps0 20 ex_read_after_write = ([VStr [102;105;118;101;102;105;118;101]], Done) /\
   run_impl (Some ([3], [])) eps0 20 ex_read_after_write = ([VStr [111;110;101;111;110;101]], Done).
 Proof. vm_compute. repeat split; reflexivity. Qed.
+
+(* ======================================================================================= *)
+(* ROUND 3 - what used to lie outside the four classes                                      *)
+(* Measured over the generator streams, /repo/examples and the documentation snippets
+   (evidence: unproved_entry_shapes).  The theorem statements above are unchanged; the
+   CHECKERS they quantify over accept more:
+   (a) a pruned FIRST declaration: run_impl allocates NO slot for a pruned `make` (stmts_with
+       skips the statement), so later lookups must not find it - the analysis prunes a
+       declaration only when no statement that can still run mentions the local; the
+       never-read class now counts reads and writers only in statements that can run (live
+       positions of the root and of functions live code can call: dead_ids_live), which the
+       verified covered_ok then re-checks;
+   (b) right-hand sides that are trap-free and effect-free in the sense of classify_expr /
+       literal_type (src/resolver.rs) and effects.rs: template strings are strings whatever
+       their variables hold, so operator trees over literals AND template strings are typed;
+       typeof(e) / to_string(e) of such expressions (pure_total, C03_pure_notrap_total);
+   NOT covered, by name: a right-hand side that calls a USER function (the analysis prunes it
+   when the callee's transitive class is PureNoTrap and it has no transitive capture write;
+   it does not ask the callee to terminate - see the report), and `command(..)` (outside the
+   model).  A bare member access `x.len` is in NO class (it always raises Type mismatch): the
+   classifier reports such an entry as a broken obligation (finding
+   member-access-classified-trap-free, repaired in /repo). *)
+
+(* make u get "a"   do g() start shout(u) return u end   shout(1)          plan S 0 F 1
+   the only statements that mention u are in a function nothing calls *)
+Definition ex_first_decl : list stmt :=
+  [SMake (Some 0) [117] (Some 0) (EStr [97]);
+   SFun (Some 1) [103] [] [SExpr (Some 2) (ECall (EVar sh None) [(EVar [117] (Some 0))] None);
+                           SRet (Some 3) (Some (EVar [117] (Some 0)))] (Some 1) 0 0;
+   SExpr (Some 4) (ECall (EVar sh None) [(ENum (of_bits 4607182418800017408))] None)].
+
+Example ex_first_decl_verdict :
+  let x := plan_ok3 ex_first_decl [0] [1] in
+  v_checked (x_main x) = true /\ x_checked x = true /\ x_residual x = ([], []) /\
+  v_stmt (x_main x) = [(0, CNeverRead)] /\ v_fn (x_main x) = [(1, FUnused)] /\
+  run_impl (Some ([0], [1])) eps0 20 ex_first_decl = run_impl None eps0 20 ex_first_decl.
+Proof. vm_compute. repeat split; reflexivity. Qed.
+(* were g called, the declaration would be needed: the checker refuses *)
+Example ex_first_decl_needed :
+  v_checked (plan_ok (ex_first_decl ++ [SExpr (Some 5) (ECall (EVar [103] None) [] (Some 1))]) [0] []) = true /\
+  v_residual (plan_ok (ex_first_decl ++ [SExpr (Some 5) (ECall (EVar [103] None) [] (Some 1))]) [0] []) = ([0], []) /\
+  x_residual (plan_ok3 (ex_first_decl ++ [SExpr (Some 5) (ECall (EVar [103] None) [] (Some 1))]) [0] []) = ([0], []).
+Proof. vm_compute. repeat split; reflexivity. Qed.
+
+(* make x get 1  make y get "s"  y get to_string([x, typeof(x)])  y get "t"  shout(y)   plan S 2 F *)
+Definition ex_builtin_rhs : list stmt :=
+  [SMake (Some 0) [120] (Some 0) (ENum (of_bits 4607182418800017408));
+   SMake (Some 1) [121] (Some 1) (EStr [115]);
+   SSet (Some 2) [121] (Some 1)
+     (ECall (EVar [116;111;95;115;116;114;105;110;103] None)
+        [(EArr [(EVar [120] (Some 0)); (ECall (EVar [116;121;112;101;111;102] None) [(EVar [120] (Some 0))] None)])] None);
+   SSet (Some 3) [121] (Some 1) (EStr [116]);
+   SExpr (Some 4) (ECall (EVar sh None) [(EVar [121] (Some 1))] None)].
+
+Example ex_builtin_rhs_verdict :
+  let x := plan_ok3 ex_builtin_rhs [2] [] in
+  v_checked (x_main x) = true /\ x_checked x = true /\ x_acc x = [2] /\ x_residual x = ([], []) /\
+  run_impl (Some ([2], [])) eps0 20 ex_builtin_rhs = run_impl None eps0 20 ex_builtin_rhs.
+Proof. vm_compute. repeat split; reflexivity. Qed.
+
+(* make x get 1   make u get 2 add "{x}!"   shout(2)                        plan S 1 F *)
+Definition ex_template_op : list stmt :=
+  [SMake (Some 0) [120] (Some 0) (ENum (of_bits 4607182418800017408));
+   SMake (Some 1) [117] (Some 1) (EBin Add (ENum (of_bits 4611686018427387904)) (EInterp [SegVar [120] (Some 0); SegLit [33]]));
+   SExpr (Some 2) (ECall (EVar sh None) [(ENum (of_bits 4611686018427387904))] None)].
+
+Example ex_template_op_verdict :
+  let x := plan_ok3 ex_template_op [1] [] in
+  pure_total (EBin Add (ENum (of_bits 4611686018427387904)) (EInterp [SegVar [120] (Some 0); SegLit [33]])) = true /\
+  v_checked (x_main x) = true /\ x_checked x = true /\ x_residual x = ([], []) /\
+  v_stmt (x_main x) = [(1, CNeverRead)].
+Proof. vm_compute. repeat split; reflexivity. Qed.
+(* an operator the types do not fit stays outside: "{x}" minus 1 *)
+Example ex_template_op_not :
+  pure_total (EBin Minus (EInterp [SegVar [120] (Some 0)]) (ENum (of_bits 4607182418800017408))) = false.
+Proof. vm_compute. reflexivity. Qed.
+
+(* make x get "ab"   make u get x.len   shout(2)        plan S 1 F on the unrepaired tree
+   finding member-access-classified-trap-free: the plain run ends in Type mismatch, the
+   pruned run prints 2; the entry is in NO class *)
+Definition ex_member : list stmt :=
+  [SMake (Some 0) [120] (Some 0) (EStr [97;98]);
+   SMake (Some 1) [117] (Some 1) (EMember (EVar [120] (Some 0)) [108;101;110]);
+   SExpr (Some 2) (ECall (EVar sh None) [(ENum (of_bits 4611686018427387904))] None)].
+
+Example C03_member_access_is_in_no_class :
+  run_impl None eps0 20 ex_member = ([], RtErr TypeMis) /\
+  run_impl (Some ([1], [])) eps0 20 ex_member = ([VNum (of_Z 2)], Done) /\
+  v_stmt (plan_ok ex_member [1] []) = [(1, CNoClass)] /\
+  x_residual (plan_ok3 ex_member [1] []) = ([1], []).
+Proof. vm_compute. repeat split; reflexivity. Qed.
+
+(* do f(p) start make t get [p, 1] return "{t}" end   make u get f(3)   shout(2)   plan S 3 F
+   the class that is NOT covered: the right-hand side calls a user function *)
+Definition ex_user_call : list stmt :=
+  [SFun (Some 0) [102] [[112]]
+     [SMake (Some 1) [116] (Some 1) (EArr [(EVar [112] (Some 0)); (ENum (of_bits 4607182418800017408))]);
+      SRet (Some 2) (Some (EInterp [SegVar [116] (Some 1)]))] (Some 1) 0 2;
+   SMake (Some 3) [117] (Some 2) (ECall (EVar [102] None) [(ENum (of_bits 4613937818241073152))] (Some 1));
+   SExpr (Some 4) (ECall (EVar sh None) [(ENum (of_bits 4611686018427387904))] None)].
+
+Example C03_user_call_rhs_is_not_covered :
+  v_stmt (plan_ok ex_user_call [3] []) = [(3, CDeadStoreCall)] /\
+  x_residual (plan_ok3 ex_user_call [3] []) = ([3], []) /\
+  run_impl (Some ([3], [])) eps0 30 ex_user_call = run_impl None eps0 30 ex_user_call.
+Proof. vm_compute. repeat split; reflexivity. Qed.
